@@ -155,6 +155,39 @@ def corr_static(ctx, n, dis, dist, samples):
             bad("fourier:srf(pos)", lean=unbits(r_srf).tolist(), real=np.asarray(f).tolist())
         if len(samples) < 3:
             samples.append(dict(case, mode_no_real=[int(v) for v in g.mode_no], field=real.tolist()[:2]))
+    # second pass — the positions are now STORED on every srf (by the call above): change the model geometry IN PLACE (anisotropy,
+    # rotation, or both; 1-D: the length scale) and evaluate the stored positions again by a call WITHOUT position argument.  The model:
+    # SRF level = isometrize with the CURRENT anisotropy / rotation, then the generator on the grid of the CURRENT anisotropy.
+    ops2, cases2 = [], []
+    for k, (case, g, m, srf, pos, mno, k_norm) in enumerate(cases):
+        dim = m.dim
+        what = str(rng.choice(["anis", "angles", "both"])) if dim > 1 else "len_scale"
+        new_anis = rnd_anis(rng, dim) if what in ("anis", "both") else [float(a) for a in np.asarray(srf.model.anis)[: dim - 1]]
+        new_angles = rnd_angles(rng, dim) if what in ("angles", "both") else None
+        if what == "len_scale":
+            srf.model.len_scale = float(srf.model.len_scale) * 1.75
+        if what in ("anis", "both"):
+            srf.model.anis = new_anis
+        if new_angles is not None:
+            srf.model.angles = new_angles
+        with warnings.catch_warnings():
+            warnings.simplefilter("ignore")
+            f2 = np.array(srf() if k % 2 else srf.unstructured(), dtype=float)
+        g2 = srf.generator
+        spec2 = srf.model.spectrum(np.linalg.norm(g2.modes, axis=0))
+        ops2.append(dict(op="fourier_gen", dim=dim, X=int(pos.shape[1]), period=fbits(case["period"]), anis=fbits(new_anis), mode_no=mno,
+                         spec=fbits(spec2), z1=fbits(g2._z_1), z2=fbits(g2._z_2), pos=fbits(pos),
+                         angles=fbits(np.asarray(srf.model.angles, dtype=float))))
+        cases2.append((dict(case, then_in_place=what, new_anis=new_anis, new_angles=new_angles, then="srf() without position argument"),
+                       f2, field_scale(g2)))
+        dist["stored-pos:" + what] = dist.get("stored-pos:" + what, 0) + 1
+    for (case2, f2, scale), r in zip(cases2, run_driver(ops2)):
+        ev += 1
+        if isinstance(r, dict) and "error" in r:
+            dis.append(dict(what="fourier:driver-error", case=case2, detail=str(r)))
+        elif not (unbits(r).shape == f2.shape and np.all(np.abs(unbits(r) - f2) <= 1e-9 * scale)):
+            dis.append(dict(what="fourier:srf()-stored-positions-after-in-place-geometry-change", case=case2,
+                            lean=unbits(r).tolist(), real=f2.tolist()))
     return ev, len(cases)
 
 
@@ -335,7 +368,8 @@ def correspondence(ctx):
     return {"evaluations": ev1 + ev2 + ev3, "distinct_nontrivial": k1 + k3,
             "rule": "random dim 1-3, model class, anisotropy, rotation, periods (incl. former arange-length cases), even mode "
                     "counts, seeds, off-grid points; grid/delta_k/generator output compared bit for bit, spectrum factor and "
-                    "isometrize at 1e-14/1e-13, SRF output at 1e-9*scale; update histories of 1-9 calls (model / period / "
+                    "isometrize at 1e-14/1e-13, SRF output at 1e-9*scale, and again after an in-place change of anisotropy / rotation "
+                    "(1-D: length scale) for a call WITHOUT position argument at the stored positions; update histories of 1-9 calls (model / period / "
                     "mode_no / seed / mixed / malformed) compared after every call on public state and against a fresh "
                     "generator; distinct = distinct generator configurations / histories",
             "samples": samples, "disagreements": dis[:10], "distribution": dist}
@@ -421,8 +455,44 @@ def search_arange(ctx, n, viol):
     return ev
 
 
+def store_positions(srf, rng, dim, period, axes, unrotated, n=3):
+    """Store positions on the SRF — by a call or by set_pos — whose periodic images (along the given main axes, by the given
+    periods) are part of the set: unstructured = base block + one shifted block per axis; structured (unrotated models only) = per
+    axis the base coordinates followed by the shifted ones.  Returns what is needed to evaluate the stored set later."""
+    cs = [int(rng.choice([1, -1, 2, -3])) for _ in range(dim)]
+    how = str(rng.choice(["call", "set_pos"]))
+    if unrotated and rng.rand() < 0.35:
+        k = 2
+        x = rng.uniform(-50, 50, size=(dim, k))
+        pos = [np.concatenate([x[d], x[d] + cs[d] * float(period[d])]) for d in range(dim)]
+        mesh = "structured"
+    else:
+        x = rng.uniform(-50, 50, size=(dim, n))
+        pos = np.hstack([x] + [x + cs[d] * float(period[d]) * np.asarray(axes[d], dtype=float)[:, None] for d in range(dim)])
+        mesh = "unstructured"
+    with warnings.catch_warnings():
+        warnings.simplefilter("ignore")
+        if how == "call":
+            srf(pos, mesh_type=mesh)
+        else:
+            srf.set_pos(pos, mesh)
+    return dict(pos=pos, mesh=mesh, how=how, multiples=cs, n=n)
+
+
+def stored_residuals(f, st, dim):
+    """per axis max |u(x + c L_d axis_d) - u(x)| of a field evaluated at a set built by `store_positions`"""
+    f = np.asarray(f, dtype=float)
+    if st["mesh"] == "structured":
+        k = f.shape[0] // 2
+        return [float(np.max(np.abs(np.take(f, range(k), axis=d) - np.take(f, range(k, 2 * k), axis=d)))) for d in range(dim)]
+    b = f.reshape(dim + 1, st["n"])
+    return [float(np.max(np.abs(b[d + 1] - b[0]))) for d in range(dim)]
+
+
 def search_histories(ctx, n, viol):
-    """setters / update / in-place model changes through the SRF: periodic with the NEW settings and equal to a fresh SRF"""
+    """setters / update / in-place model changes through the SRF: periodic with the NEW settings and equal to a fresh SRF — at
+    positions given with the call AND at positions that were stored on the SRF before the change and are evaluated again by a call
+    without position argument (unstructured and structured)"""
     import gstools as gs
     rng = np.random.RandomState(ctx.seed + 1712)
     ev = 0
@@ -441,32 +511,63 @@ def search_histories(ctx, n, viol):
                                    "update_seed_period", "odd"]))
             g = srf.generator
             same_model = False
+            # ---- what the step will change (drawn first: the positions stored BEFORE the change contain the periodic images
+            #      with respect to the settings AFTER it)
+            new = dict(period=period, mno=mno, tag=tag, anis=anis, angles=angles, len_scale=None, bad=None, sub=None)
+            if kind == "period":
+                new["period"] = rnd_period(rng, dim)
+            elif kind == "mode_no":
+                new["mno"] = rnd_mno(rng, dim)
+            elif kind == "model":
+                new["tag"] = int(rng.randint(len(TAGS))); new["anis"] = rnd_anis(rng, dim)
+            elif kind == "inplace_anis" and dim > 1:
+                new["anis"] = rnd_anis(rng, dim)
+            elif kind == "inplace_len":
+                new["len_scale"] = float(rng.choice([2.0, 3.0, 5.0, 7.0, 11.0, 13.0, 17.0]))   # well separated: not inside the isclose band
+            elif kind == "inplace_angles" and dim > 1:
+                new["angles"] = rnd_angles(rng, dim)
+            elif kind == "update_same_model":
+                same_model = True
+                new["sub"] = bool(rng.rand() < 0.5)
+                if new["sub"]:
+                    new["period"] = rnd_period(rng, dim)
+                else:
+                    new["mno"] = rnd_mno(rng, dim)
+            elif kind == "update_seed_period":
+                same_model = True
+                new["period"] = rnd_period(rng, dim)
+            elif kind == "odd":
+                new["bad"] = [v + 1 for v in rnd_mno(rng, dim)]
+            axes_new = np.atleast_2d(mk_model(new["tag"], dim, new["anis"], new["angles"]).main_axes()) if dim > 1 else np.array([[1.0]])
+            try:
+                stored = store_positions(srf, rng, dim, new["period"], axes_new, not any(a != 0 for a in new["angles"]))
+            except Exception as ex:
+                viol.append({"key": "fourier:history-exception:store-positions", "what": f"{type(ex).__name__}: {ex}", "case": dict(trace=trace)})
+                break
             try:
                 if kind == "period":
-                    period = rnd_period(rng, dim); g.period = period
+                    period = new["period"]; g.period = period
                 elif kind == "mode_no":
-                    mno = rnd_mno(rng, dim); g.mode_no = mno
+                    mno = new["mno"]; g.mode_no = mno
                 elif kind == "model":
-                    tag = int(rng.randint(len(TAGS))); anis = rnd_anis(rng, dim)
+                    tag = new["tag"]; anis = new["anis"]
                     srf.model = mk_model(tag, dim, anis, angles)
                 elif kind == "inplace_anis" and dim > 1:
-                    anis = rnd_anis(rng, dim); srf.model.anis = anis
+                    anis = new["anis"]; srf.model.anis = anis
                 elif kind == "inplace_len":
-                    srf.model.len_scale = float(rng.choice([2.0, 3.0, 5.0, 7.0, 11.0, 13.0, 17.0]))   # well separated: not inside the isclose band
+                    srf.model.len_scale = new["len_scale"]
                 elif kind == "inplace_angles" and dim > 1:
-                    angles = rnd_angles(rng, dim); srf.model.angles = angles
+                    angles = new["angles"]; srf.model.angles = angles
                 elif kind == "update_same_model":
-                    same_model = True
-                    if rng.rand() < 0.5:
-                        period = rnd_period(rng, dim); g.update(model=srf.model, period=period)
+                    if new["sub"]:
+                        period = new["period"]; g.update(model=srf.model, period=period)
                     else:
-                        mno = rnd_mno(rng, dim); g.update(model=srf.model, mode_no=mno)
+                        mno = new["mno"]; g.update(model=srf.model, mode_no=mno)
                 elif kind == "update_seed_period":
-                    same_model = True
-                    period = rnd_period(rng, dim); g.update(seed=g.seed, period=period)
+                    period = new["period"]; g.update(seed=g.seed, period=period)
                 elif kind == "odd":
                     before = (np.array(g.period).copy(), g.modes.copy(), list(g.mode_no))
-                    bad = [v + 1 for v in rnd_mno(rng, dim)]
+                    bad = new["bad"]
                     try:
                         g.update(period=[p * 2 for p in period], mode_no=bad)
                         viol.append({"key": "fourier:odd-mode_no-accepted", "what": "odd mode_no accepted", "case": dict(mode_no=bad)})
@@ -481,12 +582,41 @@ def search_histories(ctx, n, viol):
                 viol.append({"key": f"fourier:history-exception:{kind}", "what": f"{type(ex).__name__}: {ex}", "case": dict(trace=trace)})
                 break
             trace.append(dict(kind=kind, period=list(period), mode_no=list(mno), anis=list(anis), angles=list(angles), tag=tag,
-                              len_scale=float(srf.model.len_scale)))
+                              len_scale=float(srf.model.len_scale), stored=dict(how=stored["how"], mesh_type=stored["mesh"])))
             case = dict(dim=dim, seed=seed, trace=trace)
             if [int(v) for v in srf.generator.mode_no] != [int(v) for v in mno]:
                 viol.append({"key": "fourier:arange-length", "what": "mode_no after update differs from the requested one",
                              "case": dict(case, got=[int(v) for v in srf.generator.mode_no])})
                 break
+            # ---- the positions stored before the change, evaluated again WITHOUT position argument
+            fresh = gs.SRF(mk_model(tag, dim, anis, angles), generator="Fourier", period=period, mode_no=mno, seed=seed)
+            fresh.model.len_scale = srf.model.len_scale
+            with warnings.catch_warnings():
+                warnings.simplefilter("ignore")
+                try:
+                    fs = np.array(srf() if rng.rand() < 0.7 else
+                                  (srf.structured() if stored["mesh"] == "structured" else srf.unstructured()), dtype=float)
+                    fb = np.array(fresh(stored["pos"], mesh_type=stored["mesh"]), dtype=float)
+                except Exception as ex:
+                    viol.append({"key": "fourier:history-exception:call-stored-positions", "what": f"{type(ex).__name__}: {ex}", "case": case})
+                    break
+            scale = field_scale(srf.generator)
+            ev += dim + 1
+            scase = dict(case, stored_pos=np.asarray(stored["pos"]).tolist(), stored_mesh_type=stored["mesh"], multiples=stored["multiples"])
+            res = stored_residuals(fs, stored, dim)
+            stop_after = False          # a violation at the stored positions: the checks at given positions below still run, then the history ends
+            if not all(r <= 1e-9 * scale for r in res):
+                viol.append({"key": "fourier:periodicity-residual:stored-positions" +
+                                    ("-odd-mode_no" if any(int(v) % 2 for v in srf.generator.mode_no) else ""),
+                             "what": f"after '{kind}' the field at the positions stored BEFORE the change (call without position argument) is not "
+                                     f"periodic along the main axes by the periods: residuals {res} (scale {scale:.3e})", "case": scase})
+                stop_after = True
+            elif not (fs.shape == fb.shape and np.array_equal(fs, fb)):
+                viol.append({"key": "fourier:update-same-model-no-reseed:stored-positions" if same_model else "fourier:history-vs-fresh:stored-positions",
+                             "what": f"after '{kind}' the field at the positions stored before the change (call without position argument) differs "
+                                     "from a freshly built SRF with the same settings called with these positions",
+                             "case": dict(scase, got=fs.tolist(), fresh=fb.tolist())})
+                stop_after = True
             nv = len(viol)
             e, _ = check_periodic(srf, rng, viol, "fourier:periodicity-residual:after-update" +
                                   ("-odd-mode_no" if any(int(v) % 2 for v in srf.generator.mode_no) else ""), case, npts=3)
@@ -509,6 +639,8 @@ def search_histories(ctx, n, viol):
                 viol.append({"key": "fourier:update-same-model-no-reseed" if same_model else "fourier:history-vs-fresh",
                              "what": "field after the history differs from a freshly built SRF with the same settings",
                              "case": dict(case, got=a.tolist(), fresh=b.tolist())})
+                break
+            if stop_after:
                 break
     return ev
 
